@@ -22,7 +22,8 @@ import numpy as np
 from common import q, lst, natlit, zlit, blit, optlit, VERIF
 from rung_util import documented_max_t, gen_max_t_variant
 
-IMPORTS = "From Verif Require Import model.Base model.Promotion proofs.PromotionProofs.\nFrom Coq Require Import Qabs.\nOpen Scope Q_scope.\n"
+IMPORTS = ("From Verif Require Import model.Base model.Promotion proofs.PromotionProofs.\nFrom Coq Require Import Qabs.\n"
+           "From Coq Require Strings.String.\nImport String.StringSyntax.\nDelimit Scope string_scope with string.\nOpen Scope Q_scope.\n")
 
 PRELUDE = r"""
 Inductive obs :=
@@ -136,8 +137,14 @@ Fixpoint chk_run (cfg : config) (st : state) (evs : list (event * obs * option s
       | None => false
       end
   end.
-Definition seq_case := (config * list (event * obs * option snap))%type.
-Definition chk_seq (c : seq_case) : bool := chk_run (fst c) (init (fst c)) (snd c).
+(* a case carries the CONSTRUCTOR ARGUMENTS; the configuration (maximum resource, rung levels, quantiles,
+   number of brackets) is computed by the model's make_config *)
+Definition seq_case := (ctor * list (event * obs * option snap))%type.
+Definition chk_seq (c : seq_case) : bool :=
+  match make_config (fst c) with
+  | Some cfg => chk_run cfg (init cfg) (snd c)
+  | None => false
+  end.
 (* hypothesis coverage: the events (with the Boundary resolution that reproduces the implementation) of a
    protocol-following harness sequence must satisfy the hypotheses of c04_no_skipped_milestone
    ([consecutive], through its proved boolean version) and of c04_resumes_only_paused ([proto_from]) *)
@@ -153,9 +160,13 @@ Fixpoint resolve (cfg : config) (st : state) (evs : list (event * obs * option s
   end.
 Definition hyp_case := (bool * seq_case)%type.
 Definition chk_hyp (c : hyp_case) : bool :=
-  let '(ckpt, (cfg, evs)) := c in
-  let evs' := resolve cfg (init cfg) evs in
-  consecutive_b cfg ckpt (init cfg) [] evs' && proto_b cfg (init cfg) evs'.
+  let '(ckpt, (k, evs)) := c in
+  match make_config k with
+  | Some cfg =>
+      let evs' := resolve cfg (init cfg) evs in
+      consecutive_b cfg ckpt (init cfg) [] evs' && proto_b cfg (init cfg) evs'
+  | None => false
+  end.
 (* diagnostics: index of the first event on which model and implementation differ, and what the model says there *)
 Fixpoint diag_run (cfg : config) (st : state) (evs : list (event * obs * option snap)) (i : Z)
   : option (Z * result (output * list (Z * nat * Q * Z) * list (Z * nat))) :=
@@ -171,7 +182,11 @@ Fixpoint diag_run (cfg : config) (st : state) (evs : list (event * obs * option 
                    | Ok (st', o) => Ok (o, paused_trials st', information_for_rungs st') end)
       end
   end.
-Definition diag_seq (c : seq_case) := diag_run (fst c) (init (fst c)) (snd c) 0%Z.
+Definition diag_seq (c : seq_case) :=
+  match make_config (fst c) with
+  | Some cfg => diag_run cfg (init cfg) (snd c) 0%Z
+  | None => Some ((-1)%Z, Err EAssert)
+  end.
 """
 
 TOL = 1e-12  # Boundary region: a few thousand ulps, far above interpolation round-off (~1e-14), far below 1e-6
@@ -641,10 +656,18 @@ def run_spec(spec, strict=False, max_trials=None):
     dist = OneHot(max(nb, sch.num_brackets))
     sch.bracket_distribution = dist
     chk = Checker(spec, levels, max_t, nb)
-    cfg_term = "(mkC %s %s %s %s %s %s %s %s %s (1 # 1000000000000) %s)" % (
-        VARIANT[spec["type"]], "Min" if spec["mode"] == "min" else "Max", zlit(max_t),
-        lst(["(%s, %s)" % (zlit(l), q(pq)) for l, pq in rungs]), natlit(nb), blit(spec["per_bracket"]),
-        blit(spec["mra"]), blit(spec["cost_attr"]), zlit(spec["nthr"]), blit(spec.get("searcher_data", "rungs") == "rungs"))
+    def strlit(x):
+        return '"%s"%%string' % x
+
+    cspace = [("x", None)] + [(k2, int(v)) for k2, v in variant["space_consts"].items()]
+    cfg_term = "(mkCtor %s %s %s %s %s %s %s %s None %s %s %s %s (1 # 1000000000000) %s)" % (
+        VARIANT[spec["type"]], "Min" if spec["mode"] == "min" else "Max",
+        optlit(variant["max_t_arg"], zlit), optlit(mra_key, strlit),
+        lst(["(%s, %s)" % (strlit(k2), optlit(v, zlit)) for k2, v in cspace]),
+        optlit(spec["rung_levels"], lambda l: lst([zlit(x) for x in l])),
+        zlit(spec["grace"]), "(Some (%d # 1))" % int(spec["rf"]),
+        natlit(spec["brackets"]), blit(spec["per_bracket"]), blit(spec["cost_attr"]), zlit(spec["nthr"]),
+        blit(spec.get("searcher_data", "rungs") == "rungs"))
 
     nw = spec["n_workers"]
     slots = [None] * nw
